@@ -386,23 +386,24 @@ theorem closeTag_ok {b : Buf} {f : Frame} (hn : HasNul b) (hf : FrameOk b.size f
 
 theorem getContent_ok {b : Buf} {f : Frame} (len : Nat) (hn : HasNul b) (hf : FrameOk b.size f) :
     ∃ r b' f', getContent b f len = .ok (r, b', f') ∧ HasNul b' ∧ b'.size = b.size ∧ FrameOk b.size f' ∧
-      f'.tagname = f.tagname ∧ f'.parent = f.parent := by
+      f'.tagname = f.tagname ∧ f'.parent = f.parent ∧
+      (¬ r.ret < 0 → f'.closed = true ∨ f'.content = true) := by
   unfold getContent
   by_cases hc : f.closed = true
-  · simp only [hc, if_true]; exact ⟨_, b, f, rfl, hn, rfl, hf, rfl, rfl⟩
+  · simp only [hc, if_true]; exact ⟨_, b, f, rfl, hn, rfl, hf, rfl, rfl, fun _ => Or.inl hc⟩
   · have hcf : f.closed = false := by simpa using hc
     simp only [hc]
     obtain ⟨eo, ee, he⟩ := strchr_ok hn hf.tb 60 (by decide)
     cases eo with
-    | none => exact ⟨⟨-1, none⟩, b, f, by simp [ee, pure, Except.pure], hn, rfl, hf, rfl, rfl⟩
+    | none => exact ⟨⟨-1, none⟩, b, f, by simp [ee, pure, Except.pure], hn, rfl, hf, rfl, rfl, fun h => absurd (by decide) h⟩
     | some e =>
       obtain ⟨hqe, he1, _⟩ := he e rfl
       have hel : e < b.size := by omega
       simp only [ee, ok_bind]
       by_cases hl : e - f.tagbuf = len
       · refine ⟨⟨1, some f.tagbuf⟩, b.set e 0 hel, { f with tagbuf := e, content := true }, by simp [hl, hcf, wr_ok 0 hel, pure, Except.pure],
-          hn.set 0 hel (Or.inr rfl), by simp, ⟨hel, hf.ab, hf.tn, (fun _ => he1)⟩, rfl, rfl⟩
-      · exact ⟨⟨-1, none⟩, b, f, by simp [hl, pure, Except.pure], hn, rfl, hf, rfl, rfl⟩
+          hn.set 0 hel (Or.inr rfl), by simp, ⟨hel, hf.ab, hf.tn, (fun _ => he1)⟩, rfl, rfl, fun _ => Or.inr rfl⟩
+      · exact ⟨⟨-1, none⟩, b, f, by simp [hl, pure, Except.pure], hn, rfl, hf, rfl, rfl, fun h => absurd (by decide) h⟩
 
 theorem closeContent_ok {b : Buf} {f : Frame} (hn : HasNul b) (hf : FrameOk b.size f)
     (hl : f.closed = true ∨ f.content = true) :
@@ -610,7 +611,7 @@ theorem step_ok (v : Variant) {s : St} (h : Inv s) (op : Op) (hl : legal v s op 
     | none => exact ⟨_, s, rfl, h, rfl⟩
     | some f =>
       obtain ⟨hf, hlit⟩ := h.fr i f hfi
-      obtain ⟨r, b', f', e, h1, h2, h3, h4, _⟩ := getContent_ok len h.nul hf
+      obtain ⟨r, b', f', e, h1, h2, h3, h4, _, _⟩ := getContent_ok len h.nul hf
       exact ⟨_, _, by simp only [e, ok_bind]; rfl, h.update h1 h2 i h3 (fun l hl2 => hlit l (h4 ▸ hl2)), h2⟩
   | closeContent i =>
     simp only [step]
@@ -814,5 +815,26 @@ theorem decWrites_bounds (targsize : Nat) : ∀ k state ti, ∀ w ∈ (decWrites
         rcases hw with hw | hw
         · omega
         · exact ih _ _ w hw
+
+
+/-! ### userdata importer (F05f, positive): get_content, then close_content, then close_tag -/
+
+theorem userdataTail_ok {b : Buf} {f : Frame} (len : Nat) (hn : HasNul b) (hf : FrameOk b.size f) (hname : NameOk f) :
+    ∃ r b' f', userdataTail b f len = .ok (r, b', f') ∧ HasNul b' ∧ b'.size = b.size ∧ FrameOk b.size f' := by
+  unfold userdataTail
+  obtain ⟨r, b1, f1, e1, hn1, hs1, hf1, ht1, _, hc1⟩ := getContent_ok len hn hf
+  simp only [e1, ok_bind]
+  by_cases hr : r.ret < 0
+  · simp only [hr, if_true]; exact ⟨-1, b1, f1, rfl, hn1, hs1, hf1⟩
+  · simp only [hr, if_false]
+    rw [← hs1] at hf1
+    obtain ⟨b2, f2, e2, hn2, hs2, hf2, ht2, _⟩ := closeContent_ok hn1 hf1 (hc1 hr)
+    simp only [e2, ok_bind]
+    rw [← hs2] at hf2
+    have hname2 : NameOk f2 := by
+      unfold NameOk at hname ⊢
+      rw [ht2, ht1]; exact hname
+    obtain ⟨r3, b3, f3, e3, hn3, hs3, hf3, _, _⟩ := closeTag_ok hn2 hf2 hname2
+    exact ⟨r3, b3, f3, e3, hn3, by rw [hs3, hs2, hs1], by rw [hs2, hs1] at hf3; exact hf3⟩
 
 end Hw.XmlScan
